@@ -34,7 +34,12 @@ SPEC = {
         "each direction's submitted stream is shorter than 2^31 - 2^17 bytes (false otherwise for a 32-bit sequence space "
         "under unbounded delay and duplication)",
         "one incarnation per endpoint pair",
-        "liveness is proved only for the canonical loss-free round from a quiescent established state (partial); "
-        "arbitrary fair tails are explored by the harness",
+        "liveness is proved for the handshake, writes of any size from a quiescent state (one 65535-byte flight per fair "
+        "round), loss of the tail of a flight repaired by the retransmission timer, and the sequential / simultaneous "
+        "close (all `_partial`: loss in the middle of a flight, lost ACKs and arbitrary fair schedules from arbitrary "
+        "reachable states are explored by the harness' fair tails, not proved)",
     ],
 }
+
+import vlib  # noqa: E402
+vlib.merge_part(SPEC, "C01s_part")
